@@ -334,9 +334,9 @@ class Gen:
         self.used_names.add(n)
         return n
 
-    def ban_like(self, prefix):
+    def ban_like(self, prefix, force=False):
         for n in [prefix] + [f"{prefix}_{i}" for i in range(6)]:
-            if n not in self.used_names:
+            if force or n not in self.used_names:
                 self.banned.add(n)
 
     def s(self, *exprs):
@@ -864,7 +864,10 @@ class Gen:
                         # a prefix the user's own statements already use (perhaps only since the builder's
                         # first request for a name)
                         pref = rng.choice(mine)
-                    self.ban_like(pref)
+                    # (no NEW assignment to the prefix or its numbered variants after the request: 'used' also holds
+                    # names that were drawn for statements which were dropped, so the builder may well issue the
+                    # bare prefix -- a later hand-written assignment to it would be the user's collision)
+                    self.ban_like(pref, force=True)
                     new = [["fresh", pref, alias],
                            ["assign", alias, None, rhs, [], 0]] + new
                     sc.nums.append(alias)
